@@ -130,6 +130,9 @@ pub fn decoy_strategy(decoy_tags: Vec<String>) -> BoxedStrategy<Node> {
     let tags = if decoy_tags.is_empty() { vec!["div".to_string()] } else { decoy_tags };
     let t2 = tags.clone();
     prop_oneof![
+        // raw-text elements and comments WITHOUT markup inside (cuts inside them are outside the D7 zones)
+        2 => pick(vec![("<title>", "A plain title", "</title>"), ("<textarea>", "some text \u{e9}", "</textarea>"), ("<style>", "p > a { color: red }", "</style>"), ("<script>", "var a = 1 > 0;", "</script>"), ("<TITLE>", "T", "</TITLE>")]).prop_map(|(s, c, e)| Node::Raw(s.to_string(), c.to_string(), e.to_string())),
+        1 => pick(vec!["<!-- plain comment -->", "<!--x-->"]).prop_map(|s| Node::Comment(s.to_string())),
         3 => (pick(tags.clone()), pick(vec!["<!--", "<!-- ", "<!--\n"]), pick(vec!["-->", " -->", "--!>"])).prop_map(|(t, o, c)| Node::Comment(format!("{o}<{t}>x</{t}>{c}"))),
         1 => pick(vec!["<!---->", "<!-- a -- b -->", "<!-- > -->", "<!--x->-->", "<?xml x?>", "<!DOCTYPE html>", "<![CDATA[ <div> ]]>", "</>", "<!>"]).prop_map(|s| Node::Comment(s.to_string())),
         3 => (pick(t2), pick(vec![("<script>", "</script>"), ("<SCRIPT type=\"text/javascript\">", "</SCRIPT>"), ("<style>", "</style>"), ("<textarea>", "</textarea>"), ("<script>", "</script >")]), pick(vec![0u8, 1, 2, 3]))
@@ -283,6 +286,7 @@ pub const SOUP: &[&str] = &[
     "<html>", "</html>", "<head>", "</head>", "<body>", "</body>", "<div>", "</div>", "<div class=\"a\">", "<p>", "</p>", "<span>", "</span>", "<br>", "<br/>", "<meta name=\"d\">", "<p", "</", "<", "<!-", "<!--", "-->", "<![CDATA[",
     "]]>", "<script>", "</script>", "<script", "</scr", "ipt>", "\"", "'", "=", ">", "text", " ", "a < b", "é", "日本", "<style>", "</style>", "<title>", "</title>", "<!DOCTYPE html>", "<div id='", "x>y", "</div", "<DIV>", "</DIV >",
     "&amp;", "\n", "<ul><li>", "</li></ul>", "<a href=\"/x\">", "</a>", "<img src=x>", "<textarea>", "</textarea>", "--", "!", "/>", "<x/>", "<div/>",
+    "<html><head><title>Tt</title></head>", "<title>x y</title>", "<textarea>ab</textarea>", "<html><head>", "<body><div>", "</div></body></html>", "<style>a{}</style>",
 ];
 
 pub fn soup_strategy(max: usize) -> BoxedStrategy<String> {
